@@ -72,6 +72,18 @@ func replay(path string) int {
 		return 2
 	}
 	f := fn(rep.Args)
+	if os.Getenv("VERIF_REPLAY_JSON") != "" {
+		res := map[string]any{"fail": f != nil}
+		if f != nil {
+			res["key"], res["detail"] = f.Key, f.Detail
+		}
+		b, _ := json.Marshal(res)
+		fmt.Printf("REPLAY-RESULT %s\n", b)
+		if f != nil {
+			return 1
+		}
+		return 0
+	}
 	if f == nil {
 		fmt.Printf("replay %s: case passes on this tree\n", filepath.Base(path))
 		return 0
